@@ -137,15 +137,21 @@ def parseBinTail : Nat → RTerm → List Tok → PS → PR RTerm
     | _ => .ok (lhs, toks, st)
 end
 
+mutual
 /-- Can a raw term be compiled as data (clause position)? `none` = a later stage raises. -/
-partial def RTerm.toSTerm : RTerm → Option STerm
+def RTerm.toSTerm : RTerm → Option STerm
   | .atom s => some (.atom s)
   | .num s => s.toNat?.map .num
   | .var v => some (.var v)
-  | .fn n isNum args => (args.mapM RTerm.toSTerm).map (if isNum then .numfn n else .fn n)
-  | .list items => (items.mapM RTerm.toSTerm).map .list
+  | .fn n isNum args => (RTerm.toSTerms args).map (if isNum then .numfn n else .fn n)
+  | .list items => (RTerm.toSTerms items).map .list
   | .lpair h t => do pure (.lpair (← h.toSTerm) (← t.toSTerm))
   | .slash => none
+/-- `mapM toSTerm` (companion of `RTerm.toSTerm` on argument lists). -/
+def RTerm.toSTerms : List RTerm → Option (List STerm)
+  | [] => some []
+  | t :: ts => do pure ((← t.toSTerm) :: (← RTerm.toSTerms ts))
+end
 
 /-- Goals before validation: what visitSimplepredicate returns. -/
 inductive RGoal where
